@@ -36,7 +36,7 @@ RULE = (
     "a seed corpus of valid inputs, -runs budget, -seed derived from VERIF_SEED) with this same oracle inside the target: input = the octets given to KNXIPFrame.from_knx, check_bytes() under the same step and memory budgets (libFuzzer dictionary = header prefixes of the service-code table); each "
     "execution counts as one evaluation, it is non-trivial by the same rule (valid header of an implemented service with 6 <= announced <= len, measured in the target), distinct by input hash"
 )
-FUZZ_RUNS = 600_000  # executions per campaign (thorough tier)
+FUZZ_RUNS = 400_000  # executions per campaign (thorough tier)
 ASSUMPTIONS = [
     "termination is judged by a step budget, never by wall clock: steps = sys.monitoring PY_START/LINE/JUMP/BRANCH "
     "events in xknx code objects; limit = A + B*len(input) with A,B >= 20x the maximum observed on valid frames "
